@@ -3,6 +3,7 @@ import Proofs.XsdText
 import Proofs.XsdRel
 import Proofs.ExtractPkgRef
 import Proofs.XsdShape
+import Proofs.XsdClosed
 
 /-!
   C20 — XSD generation mirrors the component's classes and data types.
@@ -77,6 +78,78 @@ theorem xsd_complete_types (d : ClassDiagram) (comp : Nat) :
   cases xtypeOf d.dts t with
   | none => rfl
   | some x => simp only [Option.map_some, Function.comp, renderType_name, renderType_bases, renderType_values]
+
+/-! ### counting: one declaration per class, one per supported attribute; referential attributes -/
+
+/-- EXACTLY ONE element per class of the component: where key letters identify the classes (`WF.kls`; `define_class` rejects a
+    second class with the same key letters), a class of the diagram is named by exactly one class element of the schema if it
+    is contained in the component and by none otherwise; and there are no further class elements (their number is the number
+    of contained classes — this part needs no hypothesis) -/
+theorem xsd_one_element_per_class (d : ClassDiagram) (comp : Nat) :
+    (classNodes (xsd d comp)).length =
+      (d.classes.filter (fun c => containedIn d.containers d.pkgrefs comp c.parent)).length ∧
+    ((d.classes.map (·.kl)).Nodup → ∀ c ∈ d.classes,
+      ((classNodes (xsd d comp)).map (·.attr "name")).count (some c.kl) =
+        if containedIn d.containers d.pkgrefs comp c.parent = true then 1 else 0) := by
+  constructor
+  · have h := congrArg List.length (xsd_complete d comp)
+    simpa only [List.length_map] using h
+  · intro hkl c hc
+    rw [xsd_complete]
+    exact Pyx.XShape.count_names_filter (fun c => c.kl) _ d.classes hkl c hc
+
+/-- ONE xs:attribute per attribute of a supported type: the number of attribute declarations of each class element is the
+    number of its attributes across R102 (off the R103 chain and on it) for which `xattr` yields a declaration
+    (`xsd_attribute_rule`: not derived, base type with a name) -/
+theorem xsd_one_attribute_per_supported (d : ClassDiagram) (comp : Nat) :
+    (classNodes (xsd d comp)).map (fun n => (attributeNodes n).length) =
+      (d.classes.filter (fun c => containedIn d.containers d.pkgrefs comp c.parent)).map
+        (fun c => (looseOf d c.id ++ c.attrs).countP (fun a => (xattr d a).isSome)) := by
+  have h := congrArg (List.map List.length) (xsd_complete_attributes d comp)
+  simp only [List.map_map] at h
+  rw [show (fun n => (attributeNodes n).length) = (List.length ∘ fun n => (attributeNodes n).map (fun a => (a.attr "name", a.attr "type"))) from by
+    funext n; simp only [Function.comp, List.length_map]]
+  rw [h]
+  apply List.map_congr_left
+  intro c _
+  simp only [Function.comp, List.length_map, List.length_filterMap_eq_countP]
+
+/-- a REFERENTIAL attribute is typed as the attribute it refers to: when R113 leads to the base attribute `ba`, the declaration
+    of `a` is `a`'s own name with the base type name of `ba`'s data type (never omitted for being derived: a referential
+    attribute has no O_DBATTR row) — in particular the same `type=` as `ba`'s own declaration when `ba` is not derived (a
+    derived `ba` is omitted itself, the attribute referring to it is still declared: Python tests O_DBATTR of `o_attr` only) -/
+theorem xsd_referential_typed_as_referred (d : ClassDiagram) (a ba : Attr) (c b : Nat) (hk : a.kind = .ref c b)
+    (hl : (findClass d c).bind (fun k => k.findAttr b) = some ba) (hb : ∀ c' b', ba.kind ≠ .ref c' b') :
+    xattr d a = ((attrDt d ba).bind (baseTypeName d.dts)).map (fun n => { name := a.name, ty := n }) ∧
+    (ba.isDerived = false → (xattr d a).map (·.ty) = (xattr d ba).map (·.ty)) := by
+  have hd : attrDt d a = attrDt d ba := by
+    unfold attrDt
+    simp only [hk, hl]
+    cases hbk : ba.kind with
+    | ref c' b' => exact absurd hbk (hb c' b')
+    | base dt => rfl
+    | derived dt => rfl
+  have hnd : a.isDerived = false := by simp [Attr.isDerived, hk]
+  constructor
+  · simp [xattr, hnd, hd]
+  · intro h
+    simp only [xattr, hnd, h, hd, Bool.false_eq_true, ↓reduceIte]
+    cases (attrDt d ba).bind (baseTypeName d.dts) <;> rfl
+
+/-- … and the other ending: a referential attribute whose R113 leads nowhere (no such class / attribute) or to another
+    referential attribute (which has no O_BATTR row: `get_refered_attribute` returns the attribute itself, whose own type is
+    same_as<Base_Attribute>) is OMITTED -/
+theorem xsd_referential_dangling_omitted (d : ClassDiagram) (a : Attr) (c b : Nat) (hk : a.kind = .ref c b)
+    (h : ∀ ba, (findClass d c).bind (fun k => k.findAttr b) = some ba → ∃ c' b', ba.kind = .ref c' b') : xattr d a = none := by
+  have hd : attrDt d a = none := by
+    unfold attrDt
+    simp only [hk]
+    cases hl : (findClass d c).bind (fun k => k.findAttr b) with
+    | none => rfl
+    | some ba =>
+      obtain ⟨c', b', hb⟩ := h ba hl
+      simp only [hb]
+  simp [xattr, hd]
 
 /-- which data types are declared: a core type iff its NAME is boolean / integer / real / string /
     unique_id (void and the other core types are omitted); every enumeration, with its enumerators in
@@ -728,6 +801,59 @@ theorem main_as_in_source :
     mainShape = { selectFn := "select_any", selectClass := "C_C", selectField := "name", buildArgs := ["m", "c_c"],
                   missingExit := 1, indent := "    " } := by decide
 
+/-- get_refered_attribute with its recursion EXECUTED by the interpreter instead of read by the oracle (`selfRec`: every call
+    of the function's own name runs the generated body again, `n` nested activations allowed, any other call and any deeper one
+    is stuck): for EVERY attribute and every depth >= 2 the result is the model's `referred`.  Two activations always suffice:
+    R113 ends at an O_BATTR row, and the O_ATTR of an O_BATTR row has no O_RATTR row — chains over R113 have length one in
+    every population of the metamodel; a `.ref` attribute pointing at another `.ref` attribute reaches nothing (no O_BATTR row)
+    and is returned as it is (then omitted, `xsd_referential_dangling_omitted`). -/
+theorem get_refered_attribute_recursion_as_in_source (d : ClassDiagram) (fuel n : Nat) (a : Attr) :
+    selfRec d fuel get_refered_attribute (n + 2) "get_refered_attribute" [.ent (.attr a)] =
+      some (.ent (.attr (referred d a))) :=
+  get_refered_attribute_rec_eq d fuel n a
+
+/-- the CALL GRAPH of the module as it stands in the source (the names the oracle is asked for by each body): acyclic apart
+    from the self-call of get_refered_attribute (tied by execution above) — the modular reading of the `*_as_in_source` theorems is
+    well-founded; and build_struct_type is called by NO function (its call in build_type is commented out), so that S_SDT
+    types are never declared whatever build_struct_type would do -/
+theorem call_graph_as_in_source :
+    functions.map (fun f => (f.name, calleesOf f)) =
+      [("get_type_name", []), ("get_refered_attribute", ["get_refered_attribute"]), ("build_core_type", []),
+       ("build_enum_type", []), ("build_struct_type", ["get_type_name"]), ("build_user_type", ["get_type_name"]),
+       ("build_type", ["build_core_type", "build_enum_type", "build_user_type"]),
+       ("build_class", ["get_refered_attribute", "get_type_name"]),
+       ("build_component", ["ooaofooa.is_contained_in", "build_class"]),
+       ("build_schema", ["ooaofooa.is_global", "build_type", "ooaofooa.is_contained_in", "build_component"])] ∧
+    ∀ f ∈ functions, "build_struct_type" ∉ calleesOf f := by decide
+
+/-- main: the FIRST C_C whose Name equals the option (select_any over C_C with `inst.Name == opts.component`), build_schema(m,
+    c_c) on it — the tree `xsdByName` gives — and exit status 1 without one.  Hypothesis: the selected component is the first
+    one with its Id (component Ids identify components; `xsd d id` looks the component up by Id again). -/
+theorem main_select_as_in_source (d : ClassDiagram) (fuel : Nat) (name : String)
+    (hid : ∀ k, d.containers.find? (fun k => k.isComp && k.name == name) = some k →
+      findContainer d.containers true k.id = some k) :
+    interpMain d fuel mainShape name =
+      some (match xsdByName d name with | some t => .written t | none => .exit 1) := by
+  unfold interpMain xsdByName
+  simp only [mainShape, and_self, ↓reduceIte]
+  rw [interpMain_find]
+  cases hf : d.containers.find? (fun k => k.isComp && k.name == name) with
+  | none => rfl
+  | some k =>
+    simp only [Option.map_some, lookupAll, List.lookup, String.reduceBEq]
+    rw [build_schema_as_in_source d fuel k.id k (hid k hf)]
+
+/-- main / prettify, the pretty-printing decision: each level of the written text is indented by the `indent=` argument of
+    `toprettyxml` as it stands in the source (the model's `nodeText` writes the children of every element that has some one
+    `mainShape.indent` deeper, between `>` newline and the end tag at the element's own indent) -/
+theorem main_indent_as_in_source (indent : List Char) (tag : String) (attrs : List (String × String)) (c : XmlTree)
+    (cs : List XmlTree) :
+    nodeText indent (.node tag attrs (c :: cs)) =
+      indent ++ '<' :: tag.toList ++ attrsText attrs ++ (">\n".toList ++ nodesText (mainShape.indent.toList ++ indent) (c :: cs) ++
+        indent ++ '<' :: '/' :: tag.toList ++ ">\n".toList) := by
+  rw [nodeText]
+  rfl
+
 /-! non-vacuity: the theorems applied to d1 / d1Ref, and hand-MUTATED IRs that give another tree -/
 
 /-- the text of the tree a call returned (trees are compared as the written text) -/
@@ -834,6 +960,65 @@ example : interp d1 0 { get_refered_attribute with body :=
   constructor
   · rfl
   · decide
+
+/-! non-vacuity of the counting / referential / recursion / main theorems -/
+
+/-- `xsd_one_element_per_class` applied (key letters of d1Ref distinct): DOG has exactly one element in Comp; without the
+    reference row CAT (package Other) has none -/
+example : ((classNodes (xsd d1Ref 6)).map (·.attr "name")).count (some "DOG") = 1 ∧
+    ((classNodes (xsd { d1Ref with pkgrefs := [] } 6)).map (·.attr "name")).count (some "CAT") = 0 :=
+  ⟨((xsd_one_element_per_class d1Ref 6).2 (by decide)
+      ⟨2, "DOG", [⟨21, "tag", .base 51⟩, ⟨22, "color", .base 50⟩, ⟨23, "owner_id", .ref 1 11⟩], [⟨0, [21]⟩, ⟨1, []⟩], .pkg 5⟩ (by decide)).trans (by decide),
+   ((xsd_one_element_per_class { d1Ref with pkgrefs := [] } 6).2 (by decide)
+      ⟨4, "CAT", [⟨41, "id", .base 102⟩, ⟨42, "mood", .base 52⟩], [⟨0, [41]⟩], .pkg 7⟩ (by decide)).trans (by decide)⟩
+
+/-- `xsd_one_attribute_per_supported` applied: Owner declares 2 of its 3 attributes (age is derived) -/
+example : (classNodes (xsd d1 6)).map (fun n => (attributeNodes n).length) = [2, 3, 2] :=
+  (xsd_one_attribute_per_supported d1 6).trans (by decide)
+
+/-- `xsd_referential_typed_as_referred` applied: Dog.owner_id -> Owner.id is declared under its own name with Owner.id's type -/
+example : xattr d1 ⟨23, "owner_id", .ref 1 11⟩ = some ⟨"owner_id", "integer"⟩ ∧
+    (xattr d1 ⟨23, "owner_id", .ref 1 11⟩).map (·.ty) = (xattr d1 ⟨11, "id", .base 102⟩).map (·.ty) :=
+  have h := xsd_referential_typed_as_referred d1 ⟨23, "owner_id", .ref 1 11⟩ ⟨11, "id", .base 102⟩ 1 11 rfl (by decide)
+    (by intro c b h; cases h)
+  ⟨h.1.trans (by decide), h.2 rfl⟩
+
+/-- `xsd_referential_dangling_omitted` applied: Leash.front2 -> Dog.owner_id (itself referential) is omitted -/
+example : xattr d1 ⟨33, "front2", .ref 2 23⟩ = none :=
+  xsd_referential_dangling_omitted d1 _ 2 23 rfl (by
+    intro ba h
+    have h' : (findClass d1 2).bind (fun k => k.findAttr 23) = some ⟨23, "owner_id", .ref 1 11⟩ := by decide
+    rw [h'] at h; cases h; exact ⟨1, 11, rfl⟩)
+
+/-- the recursion is really executed: with ONE activation allowed the call for Dog.owner_id is stuck (the body calls itself
+    for Owner.id), with two it returns Owner.id -/
+example : (selfRec d1 0 get_refered_attribute 1 "get_refered_attribute" [.ent (.attr ⟨23, "owner_id", .ref 1 11⟩)]).isNone = true ∧
+    selfRec d1 0 get_refered_attribute 2 "get_refered_attribute" [.ent (.attr ⟨23, "owner_id", .ref 1 11⟩)] =
+      some (.ent (.attr ⟨11, "id", .base 102⟩)) :=
+  ⟨by decide, (get_refered_attribute_recursion_as_in_source d1 0 0 _).trans (by
+    have : referred d1 ⟨23, "owner_id", .ref 1 11⟩ = ⟨11, "id", .base 102⟩ := by decide
+    rw [this])⟩
+
+/-- `main_select_as_in_source` applied: `-c Comp` writes the model's tree, `-c Nope` exits with status 1; a MUTATED shape
+    (select_many for select_any) means nothing -/
+example : interpMain d1 9 mainShape "Comp" = some (.written (xsd d1 6)) ∧
+    interpMain d1 9 mainShape "Nope" = some (.exit 1) ∧
+    (interpMain d1 9 { mainShape with selectFn := "select_many" } "Comp").isNone = true := by
+  refine ⟨?_, ?_, by decide⟩
+  · refine (main_select_as_in_source d1 9 "Comp" ?_).trans ?_
+    · intro k hk
+      have h : d1.containers.find? (fun k => k.isComp && k.name == "Comp") = some compK := by decide
+      rw [h] at hk; cases hk; decide
+    · have h : xsdByName d1 "Comp" = some (xsd d1 6) := by
+        unfold xsdByName
+        have h : d1.containers.find? (fun k => k.isComp && k.name == "Comp") = some compK := by decide
+        rw [h]; rfl
+      rw [h]
+  · refine (main_select_as_in_source d1 9 "Nope" ?_).trans ?_
+    · intro k hk
+      have h : d1.containers.find? (fun k => k.isComp && k.name == "Nope") = none := by decide
+      rw [h] at hk; cases hk
+    · rw [xsd_unknown_component d1 "Nope" (by decide)]
 
 end SourceShape
 
